@@ -43,7 +43,8 @@ def run_one(arg):
         for a in ax:
             s.add(a)
         t0 = time.time()
-        r = s.check()
+        from .driver import hard_check
+        r = hard_check(s, timeout_ms)
         out.append((name, cfg_name, str(r), round(time.time() - t0, 1)))
     return out
 
